@@ -339,6 +339,24 @@ def maximum(a, b):
     return Vec([_max2(x, y) for x, y in zip(av, bv)])
 
 
+def _min2(a, b):
+    if isinstance(a, Frac) or isinstance(b, Frac):
+        raise TypeError('symnp.minimum on fractions is not modelled')
+    with NoTracing():
+        if not _is_sym(a) and not _is_sym(b):
+            return a if a <= b else b
+        za, zb = _zint(a), _zint(b)
+        return sym_int(z3.If(za <= zb, za, zb))
+
+
+def minimum(a, b):
+    bv = a._other(b) if isinstance(a, Vec) else b._other(a)
+    av = a.v if isinstance(a, Vec) else bv
+    if not isinstance(a, Vec):
+        av, bv = bv, b.v
+    return Vec([_min2(x, y) for x, y in zip(av, bv)])
+
+
 def max(a):  # noqa: A001
     it = list(a)
     out = it[0]
